@@ -102,6 +102,7 @@ def fun(inputs: list[tuple[Tok, str]], out: Tok, params=()) -> Tok:
 def universe():
     A, B = evar("A", 1), evar("B", 2)
     cA = ecvar("A", 3)
+    cB = ecvar("B", 4)
     nat, int_ = num("Nat"), num("Int")
     none = T("NoneType", "None", unsolved_vars=set(), linear=False)
     b0 = T("BoundTypeVar", "T0", ("BoundVar", "Var"), idx=0, unsolved_vars=set(), linear=False)
@@ -117,7 +118,10 @@ def universe():
              fun([(nat, "NoFlags")], int_), fun([(A, "NoFlags")], B), fun([(nat, "NoFlags"), (nat, "NoFlags")], int_),
              fun([(nat, "Owned")], int_), fun([(qubit, "Inout")], none), fun([(qubit, "Owned")], none), fun([(qubit, "Inout")], A),
              fun([(nat, "NoFlags")], int_, params=("P0",)), qubit]
-    consts = [cA, c3, c4]
+    types += [opq("array", tyarg(nat), cnarg(cB)), tup(opq("array", tyarg(nat), cnarg(cA)), opq("array", tyarg(nat), cnarg(cA))),
+              tup(opq("array", tyarg(nat), cnarg(c3)), opq("array", tyarg(nat), cnarg(c4)))]
+    consts = [cA, cB, c3, c4]
+    universe.const_extra = (cB, c3)
     return types, consts, (A, B, cA), (nat, int_)
 
 
@@ -211,7 +215,9 @@ def run(ctx: Ctx) -> None:
     types, consts, (A, B, cA), (nat, int_) = universe()
     ev = PyEval(idx, TY, max_depth=40)
     ps = [a.arg for a in uf.node.args.args]
-    starts = [("empty", {}), ("?A:=nat", {A: nat}), ("?A:=?B", {A: B})]
+    cB, c3 = universe.const_extra
+    # starting substitutions: type variables solved to a type / to another variable, const variables likewise
+    starts = [("empty", {}), ("?A:=nat", {A: nat}), ("?A:=?B", {A: B}), ("?cA:=3", {cA: c3}), ("?cA:=?cB", {cA: cB}), ("?cB:=?cA", {cB: cA})]
     disagree, unsound, crashed = [], [], []
     und = None
     n_pairs = 0
